@@ -210,3 +210,35 @@ Example ex_spiral_fails :
   ranked ex_spiral = false
   /\ calc (enough_fuel ex_spiral) ex_spiral ex_pop (init []) 1 ex_p = (init [], Err EOther).
 Proof. vm_compute. auto. Qed.
+
+(** ** Tie to the regenerated order of the evaluator's steps and to the regenerated routing
+       of an input
+
+    coq/gen/GuardsPlan.v is re-emitted on every run from the Python text of
+    Simulation.calculate, _calculate, _check_for_cycle and purge_cache_of_invalid_values
+    (harness/gen_tables.py, fail-closed): every statement is replaced by its tag
+    (coq/model/GuardsTypes.v), if / for / try keep their nesting.  coq/model/EnginePlan.v
+    holds the plans that [Engine.calc], [calc_body] and [purge] implement, with the line of
+    the model that carries each step: the pop and the purge are in the finally clause, in that
+    order; the consistency check comes before the cache lookup; the cycle test comes before
+    the formula; only the spiral error is caught.  coq/gen/GuardsInput.v is the routing of
+    Simulation.set_input / Holder.set_input / Holder._set, and
+    coq/model/GuardsInputEngineSem.v re-assembles [Engine.set_input] from it. *)
+From Verif Require Import GuardsTypes GuardsPlan EnginePlan GuardsPlanProofs.
+From Verif Require Import GuardsInput GuardsInputEngineSem GuardsInputEngineProofs.
+
+Theorem source_plans_are_model_plans :
+  gen_calculate_plan = calculate_plan
+  /\ gen__calculate_plan = _calculate_plan
+  /\ gen_check_for_cycle_plan = check_for_cycle_plan
+  /\ gen_purge_plan = purge_plan.
+Proof.
+  exact (conj gen_calculate_plan_is_model (conj gen__calculate_plan_is_model
+        (conj gen_check_for_cycle_plan_is_model gen_purge_plan_is_model))).
+Qed.
+Print Assumptions source_plans_are_model_plans.
+
+Theorem source_set_input_is_model_set_input : forall sy pp s v p a,
+  set_input sy pp s v p a = src_engine_set_input sy pp s v p a.
+Proof. exact engine_set_input_is_source. Qed.
+Print Assumptions source_set_input_is_model_set_input.
